@@ -129,6 +129,16 @@ NOTES = {
  'C18f': ('missed', 'the argument sits in a named fragment: variable, default used (absent / null)'),
  'C19f': ('missed', 'a spread with a directive inside another fragment\'s definition under a union parent (both name orders) and through the gateway'),
  'C20f': ('missed', 'nested temporary release after which the outer function takes and returns a token of its own'),
+ 'C01g': ('detected', ''),
+ 'C02g': ('missed', 'a list that becomes empty (and non-empty again) under a live subscription: a "clear" change and a chained history'),
+ 'C03g': ('detected', ''),
+ 'C04g': ('detected', ''),
+ 'C05g': ('detected', ''),
+ 'C06g': ('detected', ''),
+ 'C07g': ('missed', 'a live computation that selects between two live queries by other reactive state (selection away, the writes, selection back: a query dropped in one run and used again later)'),
+ 'C08g': ('missed', 'Stop after the creator\'s context was cancelled, and two concurrent Stops, judged by the C08 cleanup oracle (the configurations existed under C04 only)'),
+ 'C09g': ('detected', ''),
+ 'C10g': ('missed', 'a non-column struct field before the filtered columns (struct index differs from column order)'),
 }
 rows = []
 for name in sorted(os.listdir(ROOT)):
